@@ -47,16 +47,23 @@ type c06Scenario struct {
 func c06Scenarios() []c06Scenario {
 	full := [2]int64{math.MinInt64, math.MaxInt64}
 	return []c06Scenario{
-		{"cmphead/q-full", "cmphead", [][2]int64{full}, 0, false, false},
+		// (cheap scenario first: it shares its shard with the last scenario of the list)
+		{"cmpblocks/q-full", "cmpblocks", [][2]int64{full}, 4, false, false},
 		{"cmphead/q-truncated-range", "cmphead", [][2]int64{{0, 99}}, 0, false, false},
 		{"cmphead/q-straddling", "cmphead", [][2]int64{{50, 150}}, 0, false, false},
 		{"cmpooo/q-full", "cmpooo", [][2]int64{full}, 0, false, false},
 		{"compact/q-full", "compact", [][2]int64{full}, 0, false, false},
 		{"cmphead/2q", "cmphead", [][2]int64{full, {0, 120}}, 0, false, false},
 		{"cmphead/q-old-ooo", "cmphead", [][2]int64{{0, 425}}, 0, false, false},
-		{"cmpblocks/q-full", "cmpblocks", [][2]int64{full}, 4, false, false},
+		{"cmphead/q-full", "cmphead", [][2]int64{full}, 0, false, false},
 		{"cmpooo+ooo-append/crash", "cmpooo", [][2]int64{full}, 0, true, true},
 		{"compact+ooo-append/crash", "compact", nil, 0, true, true},
+		// Only the memory-truncation protocol is controlled (block written and loaded in set-up, i.e. the
+		// first two steps of compactHead), and the query is handed over between two threads: one creates
+		// the querier and collects the first series' chunk metas, a second one drains. A blocked/finished
+		// thread switches for free, so "querier opened after the pending-readers check, read after the
+		// GC" needs ONE preemption instead of two, on a short trace.
+		{"truncmem/q-split", "truncmem", [][2]int64{full}, 0, false, false},
 	}
 }
 
@@ -81,6 +88,7 @@ type c06Obs struct {
 	dir      string
 	db       *DB
 	maintErr string
+	truncT   int64 // truncmem: truncation time of the block written in set-up
 	results  []map[string][]int64
 	qErr     []string
 	expected map[string][]int64
@@ -139,6 +147,20 @@ func c06Setup(sc c06Scenario, obs *c06Obs) {
 	for sk := range obs.expected {
 		sort.Slice(obs.expected[sk], func(i, j int) bool { return obs.expected[sk][i] < obs.expected[sk][j] })
 	}
+	if sc.Maint == "truncmem" {
+		h := db.Head()
+		mint := h.MinTime()
+		rh := NewRangeHead(h, mint, rangeForTimestamp(mint, dbxR)-1)
+		db.cmtx.Lock()
+		if _, err := db.compactor.Write(db.dir, rh, rh.MinTime(), rh.BlockMaxTime(), nil); err != nil {
+			panic(err)
+		}
+		if err := db.reloadBlocks(); err != nil {
+			panic(err)
+		}
+		db.cmtx.Unlock()
+		obs.truncT = rh.BlockMaxTime()
+	}
 	for i := 0; i < sc.PreBlock; i++ {
 		h := db.Head()
 		mint := h.MinTime()
@@ -172,6 +194,10 @@ func c06Body(sc c06Scenario, obs *c06Obs) func() {
 				db.cmtx.Lock()
 				err = db.compactBlocks()
 				db.cmtx.Unlock()
+			case "truncmem":
+				db.cmtx.Lock()
+				err = db.head.truncateMemory(obs.truncT)
+				db.cmtx.Unlock()
 			}
 			if err != nil {
 				obs.maintErr = err.Error()
@@ -202,28 +228,38 @@ func c06Body(sc c06Scenario, obs *c06Obs) func() {
 				}
 				res := map[string][]int64{}
 				ss := q.Select(context.Background(), true, nil, labels.MustNewMatcher(labels.MatchEqual, "__name__", "m"))
-				for ss.Next() {
-					s := ss.At()
-					sk := seriesKeyOf(s.Labels())
-					it := s.Iterator(nil)
-					for it.Next() == chunkenc.ValFloat {
-						t, v := it.At()
-						if v != float64(t) {
-							obs.qErr[qi] = fmt.Sprintf("series %s t=%d has value %v", sk, t, v)
+				rest := func(have bool) {
+					for have || ss.Next() {
+						have = false
+						s := ss.At()
+						sk := seriesKeyOf(s.Labels())
+						it := s.Iterator(nil)
+						for it.Next() == chunkenc.ValFloat {
+							t, v := it.At()
+							if v != float64(t) {
+								obs.qErr[qi] = fmt.Sprintf("series %s t=%d has value %v", sk, t, v)
+							}
+							res[sk] = append(res[sk], t)
 						}
-						res[sk] = append(res[sk], t)
+						if it.Err() != nil {
+							obs.qErr[qi] = it.Err().Error()
+						}
 					}
-					if it.Err() != nil {
-						obs.qErr[qi] = it.Err().Error()
+					if ss.Err() != nil {
+						obs.qErr[qi] = ss.Err().Error()
 					}
+					if err := q.Close(); err != nil {
+						obs.qErr[qi] = err.Error()
+					}
+					obs.results[qi] = res
 				}
-				if ss.Err() != nil {
-					obs.qErr[qi] = ss.Err().Error()
+				if strings.HasSuffix(sc.Name, "/q-split") && ss.Next() {
+					// the first series' chunk metas are collected; another thread drains
+					d := vsched.GoNamed(fmt.Sprintf("q%d-drain", qi), func() { rest(true) })
+					vsched.WaitFor(d)
+					return
 				}
-				if err := q.Close(); err != nil {
-					obs.qErr[qi] = err.Error()
-				}
-				obs.results[qi] = res
+				rest(false)
 			}))
 		}
 		vsched.WaitFor(ths...)
